@@ -174,9 +174,9 @@ def fresnel_magnitude_oracle(path):
     return ms, mp
 
 
-def attenuation_exponent_oracle(path, f):
-    """integral of ds / L(z, f) along the ray by adaptive quadrature of the ray equation
-    (sin(theta) n(z) = const), independent of the code's grids and antiderivatives"""
+def ray_integral_oracle(path, weight):
+    """integral of weight(ice, z) ds along the ray by adaptive quadrature of the ray equation
+    (sin(theta) n(z) = const along a path in stratified ice), independent of the code's grids and antiderivatives"""
     import scipy.integrate
     from pyrex.ray_tracing import BasicRayTracePath, UniformRayTracePath
     if isinstance(path, UniformRayTracePath):
@@ -185,26 +185,28 @@ def attenuation_exponent_oracle(path, f):
         for p1, p2 in zip(pts[:-1], pts[1:]):
             L = float(np.linalg.norm(p2 - p1))
             if p1[2] == p2[2]:
-                tot += L / float(path.ice.attenuation_length(p1[2], f))
+                tot += L * float(weight(path.ice, p1[2]))
             else:
-                v, _ = scipy.integrate.quad(lambda z: 1.0 / float(path.ice.attenuation_length(z, f)), min(p1[2], p2[2]), max(p1[2], p2[2]), limit=200)
+                v, _ = scipy.integrate.quad(lambda z: float(weight(path.ice, z)), min(p1[2], p2[2]), max(p1[2], p2[2]), limit=200)
                 tot += v * L / abs(p2[2] - p1[2])
         return tot
     if not isinstance(path, BasicRayTracePath):
-        return sum(attenuation_exponent_oracle(q, f) for q in path.paths)
+        return sum(ray_integral_oracle(q, weight) for q in path.paths)
     ice = path.ice
     beta = float(path.n0 * np.sin(path.theta0))
 
     def leg(za, zb, turning):
         lo, hi = min(za, zb), max(za, zb)
+        if hi == lo:
+            return 0.0
         if not turning:
-            g = lambda z: float(ice.index(z)) / math.sqrt(max(float(ice.index(z)) ** 2 - beta ** 2, 1e-300)) / float(ice.attenuation_length(z, f))
+            g = lambda z: float(ice.index(z)) / math.sqrt(max(float(ice.index(z)) ** 2 - beta ** 2, 1e-300)) * float(weight(ice, z))
             return scipy.integrate.quad(g, lo, hi, limit=400)[0]
         # z = hi - u^2 removes the inverse-square-root singularity at the turning depth hi
         def h(u):
             z = hi - u * u
             n = float(ice.index(z))
-            return n / math.sqrt(max(n * n - beta * beta, 1e-300)) / float(ice.attenuation_length(z, f)) * 2 * u
+            return n / math.sqrt(max(n * n - beta * beta, 1e-300)) * float(weight(ice, z)) * 2 * u
         return scipy.integrate.quad(h, 0.0, math.sqrt(hi - lo), limit=400)[0]
     if path.direct:
         return leg(path.z0, path.z1, False)
@@ -213,6 +215,70 @@ def attenuation_exponent_oracle(path, f):
         return leg(path.z0, top, False) + leg(path.z1, top, False)
     zt = math.log((ice.n0 - beta) / ice.k) / ice.a          # n(zt) = beta
     return leg(path.z0, zt, True) + leg(path.z1, zt, True)
+
+
+def attenuation_exponent_oracle(path, f):
+    """integral of ds / L(z, f) along the ray"""
+    return ray_integral_oracle(path, lambda ice, z: 1.0 / float(ice.attenuation_length(z, f)))
+
+
+def tof_oracle(path):
+    """time of flight = integral of n ds / c along the ray"""
+    return ray_integral_oracle(path, lambda ice, z: float(ice.index(z)) / 299792458.0)
+
+
+K_LOG1_TOF = "specialized-tof-log1-cancellation(C01:specialized-log1-cancellation)"
+
+
+def log1_tof_bound(path):
+    """Worst-case effect on tof of the open C01 finding `specialized-log1-cancellation` (SpecializedRayTracePath._int_terms
+    subtracts nearly equal numbers in log_term_1 for small beta near z_uniform).  Same error model as harness/props/c01.py
+    (log1_delta / log1_bound, from C01's theorem log1_stable): |error of log_term_1| <= (2.5 + 1.5 (n0^2/alpha + n_z^2/gamma))
+    ulp(n0 n_z), propagated through ln(.)/a and the prefactor n0^2 / (c sqrt(alpha)), at every segment endpoint at or above
+    z_uniform and at z_uniform when a segment crosses it.  0 for beta <= beta_tolerance (the logarithms are not evaluated)."""
+    ice = path.ice
+    n0, k, a = float(ice.n0), float(ice.k), float(ice.a)
+    beta = float(path.n0 * np.sin(path.theta0))
+    if beta <= 0.005 * (1 - 1e-6) or beta >= n0:
+        return 0.0
+    zu = float(path.z_uniform)
+
+    def delta(z):
+        n = n0 - k * math.exp(a * z)
+        al, g = n0 * n0 - beta * beta, n * n - beta * beta
+        if al <= 0 or g <= 1e-9 * n * n:
+            return 0.0
+        log1 = (beta * k * math.exp(a * z)) ** 2 / (n0 * n - beta * beta + math.sqrt(al * g))
+        err = math.ulp(n0 * n) * (2.5 + 1.5 * (n0 * n0 / al + n * n / g))
+        r = err / log1 if log1 > 0 else float("inf")
+        return float("inf") if r >= 1 else -math.log1p(-r)
+    legs = [(path.z0, path.z1, False)] if path.direct else [(path.z0, path.z_turn, True), (path.z1, path.z_turn, True)]
+    tot = 0.0
+    for za, zb, cut in legs:
+        lo, hi = min(za, zb), max(za, zb)
+        pts = [z for z in (za, zb) if z >= zu and not (cut and z == zb)]
+        if lo < zu <= hi:
+            pts.append(zu)
+        tot += sum(delta(z) for z in pts)
+    return tot / a * n0 * n0 / (math.sqrt(n0 * n0 - beta * beta) * 299792458.0)
+
+
+def tof_allowance(path, T_or):
+    """allowed |path.tof - quadrature|: the analytic classes (Specialized: antiderivatives, uniform-index approximation
+    below z_uniform where n is within 1e-5 of n0; Uniform / Layered: n L / c) agree to rounding -> 1e-4 relative;
+    BasicRayTracePath integrates on a 1 m trapezoid and stops dz/10 short of a turning point (same arc term as for
+    the attenuation)"""
+    from pyrex.ray_tracing import BasicRayTracePath, SpecializedRayTracePath
+    if isinstance(path, BasicRayTracePath) and not isinstance(path, SpecializedRayTracePath):
+        tol = 0.05 * T_or
+        ice = path.ice
+        beta = float(path.n0 * np.sin(path.theta0))
+        if not path.direct and not beta < float(ice.index(ice.valid_range[1])):
+            zt = math.log((ice.n0 - beta) / ice.k) / ice.a
+            R = beta / (ice.k * ice.a * math.exp(ice.a * zt))
+            tol += 4 * math.sqrt(2 * R * path.dz) * beta / 299792458.0
+        return tol
+    return 1e-4 * T_or
 
 
 def attenuation_allowance(path, f, I_or):
@@ -338,6 +404,18 @@ def fixed_cases():
     # nearly horizontal refracted ray whose first depth grid has a single node (linspace(..., 1): step = nan)
     a, b = [0.0, 0.0, -132.43983887845013], [-28.45448658053962, 90.75169159342167, -134.05176547190752]
     out.append(("basic", {"tracer": "BasicRayTracer", "from": a, "to": b}, BasicRayTracer(a, b)))
+    # nearly vertical (beta below the tracer's beta tolerance) across z_uniform
+    a, b = [0.0, 0.0, -900.0], [1.5, 0.5, -150.0]
+    out.append(("specialized", {"tracer": "SpecializedRayTracer", "from": a, "to": b}, SpecializedRayTracer(a, b)))
+    # endpoints within 10 dz of z_uniform, the other far across it (segment-wise minimum-step clamps)
+    for name, off in (("AntarcticIce", -5.43), ("AntarcticIce", 0.0), ("GreenlandIce", -2.7)):
+        ice_ = ice_by_name(name)
+        zu = float(SpecializedRayTracer([0.0, 0.0, -1.0], [1.0, 0.0, -2.0], ice_).z_uniform)
+        a, b = [0.0, 0.0, zu + off], [300.0, 0.0, -100.0]
+        d_ = {"tracer": "SpecializedRayTracer", "from": a, "to": b, "ice": name, "near_z_uniform": off}
+        if name != "AntarcticIce":
+            d_["probe_only"] = True
+        out.append(("specialized", d_, SpecializedRayTracer(a, b, ice_)))
     # surface reflections: total internal (far, shallow) and partial (steep)
     for a, b in (([0.0, 0.0, -50.0], [150.0, 0.0, -60.0]), ([10.0, -5.0, -300.0], [60.0, 20.0, -200.0])):
         out.append(("specialized", {"tracer": "SpecializedRayTracer", "from": a, "to": b}, SpecializedRayTracer(a, b)))
@@ -353,12 +431,45 @@ def fixed_cases():
     return out
 
 
+ICE_CLASSES = ["AntarcticIce", "GreenlandIce", "ArasimIce"]
+
+
+def ice_by_name(name):
+    import pyrex.ice_model as im
+    return getattr(im, name)()
+
+
+def z_uniform_cases(rng, count):
+    """SpecializedRayTracer geometries with one endpoint just below / exactly at / just above z_uniform (read from the
+    tracer for each ice model) and the other endpoint far across it"""
+    from pyrex.ray_tracing import SpecializedRayTracer
+    out = []
+    for _ in range(count):
+        name = rng.choice(ICE_CLASSES)
+        ice = ice_by_name(name)
+        zu = float(SpecializedRayTracer([0.0, 0.0, -1.0], [1.0, 0.0, -2.0], ice).z_uniform)
+        off = rng.choice([0.0, -0.3, 0.4, -2.7, 3.1, -5.43, -8.6, 9.2, -12.5, rng.uniform(-15, 15)])
+        far = rng.choice([rng.uniform(-300.0, -20.0), zu - rng.uniform(300.0, 900.0)])
+        r = rng.choice([0.0, rng.uniform(20.0, 800.0)])
+        ph = rng.uniform(-math.pi, math.pi)
+        a, b = [0.0, 0.0, zu + off], [r * math.cos(ph), r * math.sin(ph), far]
+        if rng.random() < 0.5:
+            a, b = b, a
+        desc = {"tracer": "SpecializedRayTracer", "from": a, "to": b, "ice": name, "near_z_uniform": off}
+        if name != "AntarcticIce":
+            desc["probe_only"] = True            # the translated model is instantiated for AntarcticIce
+        out.append(("specialized", desc, SpecializedRayTracer(a, b, ice)))
+    return out
+
+
 def rebuild(desc):
     from pyrex.ray_tracing import SpecializedRayTracer, BasicRayTracer, UniformRayTracer
     from pyrex.ice_model import UniformIce
     from pyrex.custom.layered_ice import LayeredIce, LayeredRayTracer
     t = desc["tracer"]
     if t == "SpecializedRayTracer":
+        if desc.get("ice"):
+            return SpecializedRayTracer(desc["from"], desc["to"], ice_by_name(desc["ice"]))
         return SpecializedRayTracer(desc["from"], desc["to"])
     if t == "BasicRayTracer":
         return BasicRayTracer(desc["from"], desc["to"])
@@ -516,6 +627,8 @@ def correspondence(ctx, cases_in):
     dist = {"paths": {}, "fresnel": 0, "attenuation": 0, "theta": 0, "pol_basis": 0, "propagate": {}, "tir": 0, "reflected": 0}
     freqs_fixed = [1e6, 5e7, 1e8, 3e8, 999e6, 1e9, 1.0001e9, 3e9, -2e8, -1e9]
     for tag, desc, rt in cases_in:
+        if desc.get("probe_only"):
+            continue
         sols = solutions_of(rt)
         if not sols:
             continue
@@ -741,7 +854,7 @@ def probes(ctx, cases_in):
                     stats["oracle_errors"] = stats.get("oracle_errors", 0) + 1
             # attenuation exponent against an independent quadrature of the ray equation (allowance for the code's
             # 1 m trapezoid / Riemann grids and its cut-off near the turning point: 10 % + 0.005)
-            if stats["paths"] % max(1, ctx.n(2, 1)) == 0:
+            if stats["paths"] % max(1, ctx.n(2, 1)) == 0 or desc.get("near_z_uniform") is not None:
                 try:
                     fq = float(rng.choice([1e8, 3e8, 7e8, 2e9]))
                     with np.errstate(all="ignore"):
@@ -754,6 +867,22 @@ def probes(ctx, cases_in):
                                  {"kind": "attenuation", **base, "f": fq})
                 except Exception as ex:
                     stats["oracle_errors"] = stats.get("oracle_errors", 0) + 1
+            # the delay that propagate() applies is judged against an independent time of flight: quadrature of n ds / c
+            try:
+                with np.errstate(all="ignore"):
+                    T_or = tof_oracle(path)
+                stats["tof_oracle"] = stats.get("tof_oracle", 0) + 1
+                if not abs(tof - T_or) <= tof_allowance(path, T_or):
+                    key = "tof-value:%s:%d:%s" % (tag, si, json.dumps(desc, sort_keys=True, default=str)[:120])
+                    from pyrex.ray_tracing import SpecializedRayTracePath
+                    if isinstance(path, SpecializedRayTracePath) and abs(tof - T_or) <= tof_allowance(path, T_or) + log1_tof_bound(path):
+                        key = K_LOG1_TOF          # C01's open finding, within its derived worst-case bound
+                        stats["tof_within_log1_bound"] = stats.get("tof_within_log1_bound", 0) + 1
+                    ctx.fail(key,
+                             "%s: the delay propagate() applies (path.tof = %.9g s) is not the time of flight, integral of n ds / c along the ray = %.9g s (relative difference %.3g)" % (
+                                 kind, tof, T_or, abs(tof - T_or) / T_or), {"kind": "tof", **base})
+            except Exception as ex:
+                stats["oracle_errors"] = stats.get("oracle_errors", 0) + 1
             # polarization vectors
             pol = rand_pol(rng)
             with np.errstate(all="ignore"):
@@ -1081,7 +1210,7 @@ def run(ctx):
         ctx.extra["translated_functions"] = side["hashes"]
     except Exception as e:
         ctx.oblige("gen:Gen_prop", False, "translation failed (fail-closed): %s" % e)
-        cases = fixed_cases() + tracer_cases(ctx.rng, ctx.n(3, 100))
+        cases = fixed_cases() + tracer_cases(ctx.rng, ctx.n(3, 100)) + z_uniform_cases(ctx.rng, ctx.n(4, 60))
         probes(ctx, cases)
         probe_inputs(ctx, cases)
         return
@@ -1091,7 +1220,7 @@ def run(ctx):
     changed = [k for k in pins if recorded.get(k) != pins[k]]
     ctx.extra["pins"] = {"current": pins, "changed_since_validation": changed}
     n_each = ctx.n(3, 100) * (3 if changed else 1)
-    cases = fixed_cases() + tracer_cases(ctx.rng, n_each)
+    cases = fixed_cases() + tracer_cases(ctx.rng, n_each) + z_uniform_cases(ctx.rng, ctx.n(4, 60))
     import time
     t0 = time.time()
     if ok:
@@ -1119,6 +1248,12 @@ def replay(ctx, obj):
         with np.errstate(all="ignore"):
             print("class", type(p).__name__, "tof", p.tof, "fresnel", p.fresnel, "emitted", p.emitted_direction, "received", p.received_direction)
             print("attenuation(1e8, 1e9):", p.attenuation(np.array([1e8, 1e9])))
+            try:
+                print("independent quadrature along the ray: time of flight %.9g s (path.tof %.9g s); attenuation exponent at %g Hz %.6g (code %.6g)" % (
+                    tof_oracle(p), float(p.tof), obj.get("f", 3e8), attenuation_exponent_oracle(p, obj.get("f", 3e8)),
+                    -math.log(float(np.atleast_1d(p.attenuation(np.array([obj.get("f", 3e8)])))[0]))))
+            except Exception as ex:
+                print("quadrature oracle failed:", ex)
             pol = obj.get("polarization", [1.0, 0.0, 0.0])
             print("polarization vectors:", p.propagate(polarization=pol))
             if "input_kind" in obj:
